@@ -86,6 +86,10 @@ EXPLANATION += (
     ' Round 13: a tiling loop over several arrays takes its extent from the array of the current turn (R-TILE/extent-of-the-array).'
 )
 
+EXPLANATION += (
+    ' Round 14: a test that relates x[-1] - x[0] to the length of x is last - first == count - 1 over a sorted, distinct x (R-ARITH/span-contiguity), also in the utils.utils helpers the anchored code calls.'
+)
+
 RULE_TEXT = (
     "one obligation per (dispatcher, encoding member), per arm-"
     "distinctness relation, per cursor relation, per range step / slice "
